@@ -369,7 +369,8 @@ TxFail(tm, sig) == IF tm.bad = "" /\ sig \notin Muted THEN [tm EXCEPT !.bad = si
 TxTx(tm, rm, am, qm, b) ==
   LET t == [tm EXCEPT !.lastTx = b, !.prevSyn = FALSE, !.await = TRUE] IN
   IF Cfg.readonly = 1 THEN TxFail(t, "C03:transmission-in-read-only-mode")
-  ELSE IF b = SYN /\ Cfg.gensyn = 1 /\ tm.silence >= SynInterval /\ tm.role # "own" THEN [t EXCEPT !.role = "autosyn"]    \* (d)
+  ELSE IF b = SYN /\ Cfg.gensyn = 1 /\ tm.silence >= SynInterval /\ tm.role # "own"                                    \* (d)
+       THEN [t EXCEPT !.role = "autosyn", !.need = IF tm.need > 2 THEN 2 ELSE tm.need]   \* an idle bus observed as SYN generator: only the explicit "one further SYN" remains demanded
   ELSE IF tm.role = "own" THEN t                                                                \* (b), byte value is C02's
   ELSE IF tm.role = "answer" THEN t                                                             \* (c) continued, value is C15's
   ELSE IF tm.role = "mute" THEN TxFail(t, "C03:transmission-after-failure-before-next-syn")
